@@ -34,6 +34,13 @@ def run():
     os.remove(os.path.join(SPEC, cfg))
     if r.violated != "ConflictNeverFatal":
         raise Inconclusive("variant ConflictFatal = TRUE should violate ConflictNeverFatal, TLC says %s" % (r.violated or r.error or "nothing"))
+    # a redial loop that gives up when an attempt reports "connection closed" (a transport lost during the handshake) leaves the connection
+    # Reconnecting for ever
+    cfg = C.write_cfg("ConnLifecycle_c05_rsc.cfg", faults=1, fixed=True, close=False, callers=("P1",), retry_stops_on_closed_err=True)
+    r = ctx.l1("ConnLifecycle", cfg, timeout=900, must_hold=False)
+    os.remove(os.path.join(SPEC, cfg))
+    if r.violated != "SupervisorAlive":
+        raise Inconclusive("variant RetryStopsOnClosedErr = TRUE should violate SupervisorAlive, TLC says %s" % (r.violated or r.error or "nothing"))
     if not quick:
         # sanity of the model: the as-coded variant (pinned commit) must violate the invariants whose defects were repaired in /repo
         cfg = C.write_cfg("ConnLifecycle_c05_coded.cfg", faults=1, fixed=False, close=False, callers=("P1", "P2"))
@@ -55,7 +62,7 @@ def run():
         core = [x for x in scs if "/S1+S2/ok/" in x["id"] or "/S2/ok/held" in x["id"] or "/S1/ok/held" in x["id"]]
         rest = [x for x in scs if x not in core]
         scs = core + pick(rest, 100 - len(core), ctx.seed)
-    scs = C.gated("C05") + C.resume_overlap("C05") + C.close_during_outage("C05") + C.handshake_refused("C05") + C.reconnected_handler("C05") + C.resume_conflict("C05") + scs
+    scs = C.gated("C05") + C.resume_overlap("C05") + C.close_during_outage("C05") + C.handshake_refused("C05") + C.handshake_cut("C05") + C.reconnected_handler("C05") + C.resume_conflict("C05") + scs
     trace = ctx.run_scenarios(scs, "c05", par=8)
     verdicts, _ = ctx.validate(trace, "MonC05")
     ctx.judge(scs, trace, verdicts)
